@@ -8,6 +8,7 @@ mod c01;
 mod c05;
 mod stats;
 mod c13;
+mod c16;
 
 fn main() {
     let args: Vec<String> = std::env::args().collect();
@@ -25,6 +26,7 @@ fn main() {
         ("c13", "replay") => c13::replay(rest),
         ("c13", "grid") => c13::grid(rest),
         ("c13", "record") => c13::record(rest),
+        ("c16", "replay") => c16::replay(rest),
         (p, m) => util::tool_error(&format!("unknown command {p} {m}")),
     }
 }
